@@ -39,6 +39,7 @@ fn c05_cfg(tier: Tier, index: u64) -> HistCfg {
         phases: false,
         special_keys: false,
         default_table: false,
+        big_table: None,
     };
     if index % 50 == 13 {
         make_dense(&mut c, tier == Tier::Thorough);
@@ -57,7 +58,7 @@ pub fn c05() -> HistProp {
         cfg: c05_cfg,
         n: |t| t.pick(12000, 120000),
         nontrivial: |_h, r| r.has("state_chain3_and_free"),
-        timeout: |t| t.pick(60, 120),
+        timeout: |t| t.pick(120, 300),
         shrink_iters: 1500,
     }
 }
@@ -100,12 +101,23 @@ fn c06_cfg(tier: Tier, index: u64) -> HistCfg {
         phases: false,
         special_keys: false,
         default_table: false,
+        big_table: None,
     };
     // files beyond 2 MiB, phased workloads, keys with particular byte patterns
     rare_regions(&mut c, index);
     if c.prelude != Prelude::None {
         // decoding multi-megabyte files after every call: keep these histories short
         c.ops.n_ops = 0..=30;
+    }
+    if index % 1500 == 713 {
+        // a single chain of thousands of links with relocations inside it; decoded at close only
+        make_very_dense(&mut c);
+        c.obs = Obs {
+            decode_at_close: true,
+            tiling: true,
+            ..Default::default()
+        };
+        c.ops.val = ValProfile::Mixed;
     }
     c
 }
@@ -123,7 +135,7 @@ pub fn c06() -> HistProp {
         cfg: c06_cfg,
         n: |t| t.pick(10000, 100000),
         nontrivial: |_h, r| r.has("free_slot_reused"),
-        timeout: |t| t.pick(60, 120),
+        timeout: |t| t.pick(120, 300),
         shrink_iters: 1500,
     }
 }
@@ -135,6 +147,9 @@ fn c06_cycle_strategy(tier: Tier, index: u64) -> BoxedStrategy<History> {
     let mut cfg = c06_cfg(tier, index);
     cfg.ops.n_ops = 5..=40;
     cfg.ops.w.reopen = 0;
+    // the cycle is repeated as a whole: no bulk prelude, no phases
+    cfg.prelude = Prelude::None;
+    cfg.phases = false;
     let reps = tier.pick(20u32..=120, 50..=200);
     (history_strategy(cfg), reps)
         .prop_map(|(mut h, r)| {
@@ -218,6 +233,20 @@ fn c17_cfg(tier: Tier, index: u64) -> HistCfg {
         ..Default::default()
     };
     c.n_keys = if index % 4 == 1 { 10..=120 } else { 1..=16 };
+    if index % 9 == 0 {
+        c.key = KeyProfile::Long;
+    }
+    if index % 500 == 101 {
+        // bitmap larger than one 128 KiB buffer chunk
+        c.max_buckets = 4 * 1024 * 1024;
+        c.big_table = Some(2 * 1024 * 1024);
+        c.ops.n_ops = 0..=12;
+        c.prelude = Prelude::None;
+    } else if index % 2500 == 301 {
+        c.default_table = true;
+        c.ops.n_ops = 0..=6;
+        c.prelude = Prelude::None;
+    }
     c
 }
 
@@ -230,7 +259,7 @@ pub fn c17() -> HistProp {
         cfg: c17_cfg,
         n: |t| t.pick(10000, 100000),
         nontrivial: |_h, r| r.has("stats_nontrivial"),
-        timeout: |t| t.pick(60, 120),
+        timeout: |t| t.pick(120, 300),
         shrink_iters: 1500,
     }
 }
@@ -265,6 +294,7 @@ fn c02_cfg(tier: Tier, index: u64) -> HistCfg {
         phases: false,
         special_keys: false,
         default_table: false,
+        big_table: None,
     };
     rare_regions(&mut c, index);
     c
@@ -317,8 +347,25 @@ fn c04_cfg(tier: Tier, index: u64) -> HistCfg {
         phases: false,
         special_keys: false,
         default_table: false,
+        big_table: None,
     };
-    if index % 40 == 13 {
+    if index % 1200 == 213 {
+        make_very_dense(&mut c);
+        c.ops.w.iter = 1;
+    } else if index % 300 == 77 {
+        // occupancy bitmap larger than one 128 KiB buffer chunk; keys aimed at the chunk edges
+        c.kts = vec![Kt::Bytes, Kt::String];
+        c.big_table = Some(if index % 600 == 77 { 1 << 20 } else { 1 << 21 });
+        c.target_pct = 100;
+        c.n_keys = 1..=30;
+        c.ops.n_ops = 1..=60;
+    } else if index % 3000 == 1501 {
+        c.kts = vec![Kt::Bytes, Kt::String];
+        c.default_table = true;
+        c.target_pct = 100;
+        c.n_keys = 1..=20;
+        c.ops.n_ops = 1..=30;
+    } else if index % 40 == 13 {
         make_dense(&mut c, tier == Tier::Thorough);
         c.ops.w.iter = 3;
     } else {
@@ -339,7 +386,7 @@ pub fn c04() -> HistProp {
         nontrivial: |h, r| {
             r.has("iter_full") && r.has("delete_present") && h.maps[0].params.buckets.bucket_count() != 8
         },
-        timeout: |t| t.pick(60, 120),
+        timeout: |t| t.pick(120, 300),
         shrink_iters: 1500,
     }
 }
@@ -376,6 +423,7 @@ fn c14_cfg(tier: Tier, index: u64) -> HistCfg {
         phases: false,
         special_keys: false,
         default_table: false,
+        big_table: None,
     };
     c.special_keys = index % 8 == 3;
     let _ = tier;
@@ -391,7 +439,7 @@ pub fn c14() -> HistProp {
         cfg: c14_cfg,
         n: |t| t.pick(12000, 120000),
         nontrivial: |_h, r| r.has("batch_unsorted_mixed"),
-        timeout: |t| t.pick(60, 120),
+        timeout: |t| t.pick(120, 300),
         shrink_iters: 1500,
     }
 }
